@@ -423,11 +423,11 @@ package errbase
 //@   uses safe_append safe_elem
 //@   ensures[C03] safeSeq(slice) && safeSeq(self.SafeDetails) && safeS(self.ErrorTypeMark.FamilyName) && safeS(self.ErrorTypeMark.Extension) ==> safeSeq(result)
 //@   ensures len(result) >= len(slice)
-//@   loop 1: invariant safeSeq(old(slice)) && safeSeq(self.SafeDetails) && safeS(self.ErrorTypeMark.FamilyName) && safeS(self.ErrorTypeMark.Extension) ==> safeSeq(slice)
+//@   loop 1: invariant[C03] safeSeq(old(slice)) && safeSeq(self.SafeDetails) && safeS(self.ErrorTypeMark.FamilyName) && safeS(self.ErrorTypeMark.Extension) ==> safeSeq(slice)
 //@           invariant len(slice) >= len(old(slice))
 
 //@ func GetAllSafeDetails
 //@   props C03 C12
 //@   conceal safeSeq
 //@   ensures[C03] forall i int :: 0 <= i && i < len(result) ==> safeS(result[i].OriginalTypeName) && safeS(result[i].ErrorTypeMark.FamilyName) && safeS(result[i].ErrorTypeMark.Extension) && safeSeq(result[i].SafeDetails)
-//@   loop 1: invariant forall i int :: 0 <= i && i < len(details) ==> safeS(details[i].OriginalTypeName) && safeS(details[i].ErrorTypeMark.FamilyName) && safeS(details[i].ErrorTypeMark.Extension) && safeSeq(details[i].SafeDetails)
+//@   loop 1: invariant[C03] forall i int :: 0 <= i && i < len(details) ==> safeS(details[i].OriginalTypeName) && safeS(details[i].ErrorTypeMark.FamilyName) && safeS(details[i].ErrorTypeMark.Extension) && safeSeq(details[i].SafeDetails)
